@@ -22,7 +22,9 @@ CLASSES = [('header_damage', 1)]
 TIERS = {'quick': {}}
 ALPHABET = [b'a', b'B', b'z', b'0', b'9', b'_', b'-', b'.', b'/', b',',
             b'=', b':', b'#', b'+', b' ', b'\t', b'\xc3\xa9', b'\xff',
-            b', ', b'k=v', b'1', b'\r', b'1.0', b'utf-8'] + \
+            b', ', b'k=v', b'1', b'\r', b'1.0', b'utf-8',
+            b'\xc5\xbf', b'\xe2\x84\xaa', b'\xc4\xb1', b'\xc4\xb0',
+            b'\xef\xbc\x91', b'\xc2\xb2'] + \
     [bytes([c]) for c in b'!"$%&\'()*;<>?@[\\]^`{|}~\x00\x7f\x0b\x0c']
 SWEEP_ALPHABET = [b'a', b'Z', b'0', b'_', b'-', b'.', b'/', b',', b'=', b':',
                   b'#', b'+', b' ', b'\t', b'\xe9', b'9']
@@ -198,6 +200,7 @@ def generate(rng, tier, cls):
             'shadow': rng.below(50) if rng.chance(0.08) else None,
             'blanks': rng.choice([0] * 20 + [1, 3, 200, 1200, 5000]),
             'lead': rng.choice([0] * 12 + [1, 2]),
+            'mutate': rng.randint(1, 5) if rng.chance(0.08) else None,
             'hdr_ws': rng.choice([None] * 15 + ['20', '09', '2020', '0b']),
             'blanks2': rng.randint(80, 300),
             'block_size': rng.choice([None, None, 1, 5, 97])}
@@ -306,7 +309,8 @@ def execute(scn, L):
                                   {'short_at': header_short_reads(
                                       data, scn['short_hdr'])}
                                   if isinstance(scn.get('short_hdr'), int)
-                                  else {}, shadow=scn.get('shadow')))
+                                  else {}, shadow=scn.get('shadow'),
+                                  mutate=scn.get('mutate')))
     out.absorb(w)
     out.case_key = pipe.scn_digest([ctx, optstr.hex(), crlf, own_lf])
     out.nontrivial = bool(optstr)
